@@ -316,8 +316,22 @@ pub fn parse_currency_non_commodity(input: &str) -> Result<String, ParseError> {
     Ok(currency)
 }
 
-/// Parse amount with optional decimal places
+/// Parse amount with optional decimal places (format `15d`: at most 15 characters)
 pub fn parse_amount(input: &str) -> Result<f64, ParseError> {
+    parse_amount_with_length(input, 15)
+}
+
+/// Parse an amount or rate of format `<max_len>d` (e.g. `17d` for field 19, `12d` for rates)
+pub fn parse_amount_with_length(input: &str, max_len: usize) -> Result<f64, ParseError> {
+    if input.len() > max_len {
+        return Err(ParseError::InvalidFormat {
+            message: format!(
+                "Invalid amount format: '{}' exceeds {} characters",
+                input, max_len
+            ),
+        });
+    }
+
     // An amount is a plain decimal: digits with at most one decimal separator after at least
     // one digit. (f64::from_str alone would also take "inf", "NaN", exponents and signs.)
     let mut separators = 0;
